@@ -23,6 +23,7 @@ from sim import core, minimise
 
 NPROC = int(os.environ.get("VERIF_NPROC", "16"))
 MAX_REPORTED = 10
+DIGEST_CAP = 6_000_000  # distinct-execution digests held in memory; beyond it counts are lower bounds
 BATCH_WATCHDOG_S = int(os.environ.get("VERIF_BATCH_WATCHDOG_S", "900"))
 
 
@@ -51,8 +52,11 @@ class UnitResult:
         self.evaluations += o.evaluations
         self.runs += o.runs
         self.counters.merge(o.counters)
-        self.digests |= o.digests
-        self.nontrivial |= o.nontrivial
+        if len(self.digests) < DIGEST_CAP:
+            self.digests |= o.digests
+            self.nontrivial |= o.nontrivial
+        else:
+            self.extra.setdefault("_meta", core.Counters()).hit("digest_cap_reached")
         for v in o.violations:
             if len(self.violations) < 200:
                 self.violations.append(v)
@@ -323,6 +327,8 @@ def run_check(mod, tier, base_seed, budget_s=None, quiet=False):
         ev["coverage"]["probes_at_zero"] = zero
         if not quiet:
             print(f"WARNING: probes at zero: {zero}")
+    if total.extra.get("_meta", {}).get("digest_cap_reached"):
+        ev["coverage"]["distinct_counts_are_lower_bounds"] = f"digest store capped at {DIGEST_CAP}"
     if known_open:
         ev["coverage"]["known_findings_met"] = {sig: known_hits.get(sig, 0) for sig in known_open}
     if harness_error:
